@@ -16,7 +16,7 @@ use super::{
     TSetIdentifier, TStructIdentifier, TType, ThriftException, ZERO_COPY_THRESHOLD,
     error::ProtocolExceptionKind,
     new_protocol_exception,
-    rw_ext::{ReadExt, WriteExt},
+    rw_ext::{ReadExt, WriteExt, split_to_checked},
     varint_ext::VarIntProcessor,
 };
 
@@ -1647,7 +1647,7 @@ impl TInputProtocol for TCompactInputProtocol<&mut Bytes> {
     #[inline]
     fn read_bytes(&mut self) -> Result<Bytes, ThriftException> {
         let size = self.read_varint::<u32>()?;
-        Ok(self.trans.split_to(size as usize))
+        Ok(split_to_checked(self.trans, size as usize)?)
     }
 
     #[inline]
@@ -1657,7 +1657,7 @@ impl TInputProtocol for TCompactInputProtocol<&mut Bytes> {
                 std::slice::from_raw_parts(ptr, len)
             }))
         } else {
-            Ok(self.trans.split_to(len))
+            Ok(split_to_checked(self.trans, len)?)
         }
     }
 
@@ -1677,7 +1677,7 @@ impl TInputProtocol for TCompactInputProtocol<&mut Bytes> {
     #[inline]
     fn read_faststr(&mut self) -> Result<FastStr, ThriftException> {
         let size = self.read_varint::<u32>()? as usize;
-        let bytes = self.trans.split_to(size);
+        let bytes = split_to_checked(self.trans, size)?;
         unsafe { Ok(FastStr::from_bytes_unchecked(bytes)) }
     }
 
@@ -1762,7 +1762,7 @@ impl TInputProtocol for TCompactInputProtocol<&mut Bytes> {
     fn read_bytes_vec(&mut self) -> Result<Vec<u8>, ThriftException> {
         let size = self.read_varint::<u32>()? as usize;
 
-        Ok(self.trans.split_to(size).into())
+        Ok(split_to_checked(self.trans, size)?.into())
     }
 
     /// Skip a field with type `field_type` recursively up to `depth` levels.
